@@ -84,6 +84,9 @@ def judge(d):
         bad = [x for x in s["distinct_reads"] if x not in (s["old_digest"], s["new_digest"])]
         if bad:
             f.append("a concurrent reader saw neither the old nor the new database: %s (old %s, new %s)" % (bad[:2], s["old_digest"], s["new_digest"]))
+        badp = [x for x in s.get("pool_reads_after", []) if not x.startswith("REFUSED") and x not in (s["old_digest"], s["new_digest"])]
+        if badp:
+            f.append("a connection that was open before the restore reads neither the old nor the new database afterwards: %s (old %s, new %s)" % (badp[:1], s["old_digest"], s["new_digest"]))
         if s["old_digest"] == s["new_digest"]:
             raise vlib.ToolError("scenario too weak: old and new destination content are the same")
     fr = d["fresh"]
